@@ -199,20 +199,21 @@ def run(facts, res):
             if k in rt and any(tuple(x) != rt[k] for x in wt[k]):
                 res.violation("E2", "operands-differ:%s" % k, "op %r: writer operand kinds %s, applier reads %s" % (k, wt[k], rt[k]), a.loc())
         # unknown op-code -> Err
-        errs = [bi for bi, st in assigns_of_return(a, "Err")]
         rej = False
-        for eb in errs:
-            falses = [l for l in lits_of(a, eb, facts) if l.kind == "call" and callee_name(l.term) == "eq" and l.truth is False]
-            if len(falses) >= len(rt) and len(rt) >= 1:
-                rej = True
+        for am_ in _mo16(facts, a):
+            for eb, _st in assigns_of_return(am_, "Err"):
+                falses = [l for l in lits_of(am_, eb, facts) if l.kind == "call" and callee_name(l.term) == "eq" and l.truth is False]
+                if len(falses) >= len(rt) and len(rt) >= 1:
+                    rej = True
         res.instance("E2", "apply_diff_patch rejects unknown op-codes with Err: %s" % rej, a.loc())
         if not rej:
             res.violation("E2", "unknown-op-not-rejected", "apply_diff_patch does not return Err for an op-code it does not know", a.loc())
         # ranges
         d_ok = i_ok = False
-        for bi, t in a.calls():
+        for am_, bi, t in [(m_, bi_, t_) for m_ in _mo16(facts, a) for bi_, t_ in m_.calls()]:
             if t.callee is None or t.callee.name not in ("drain", "splice"):
                 continue
+            du = du_of(am_)
             rg = peel(du.operand_term(t.args[1], 40))
             if rg[0] != "agg" or not rg[1].endswith("ops::Range"):
                 continue
